@@ -1,51 +1,57 @@
 ------------------------------- MODULE CmdLine -------------------------------
-(* The command-line / option layer shared by the assembler and the utilities (cmdarg.c ProcessCMD and the        *)
-(* CMD_* callbacks of as.c, p2bin.c, plist.c, toolutils.c), extension of check C17.                              *)
-(*                                                                                                                *)
-(* MACHINE SIDE (operators shaped like the C code)                                                                *)
-(*   ParamSwitch / ParamInLine / ParamInArgv = ProcessParam():  classification of one word by its first           *)
-(*       character, the `#` / `~` case prefixes, whole-word match (upper-cased, identifiers longer than one        *)
-(*       letter) before the letter-by-letter loop (case sensitive, CMDArg sticky, stops at the first CMDErr),      *)
-(*       the look-ahead word handed to every callback (blanked when it starts with - + @).                        *)
-(*   DecodeLine  = DecodeLine():  one line of the environment variable / of a key file; CMDArg skips the next      *)
-(*       token, plain tokens go to FileArgList, a key reference is refused (AllowLink = False).                   *)
-(*   ProcessFile = ProcessFile(): every line of a key file through DecodeLine; missing file = ErrProc.             *)
-(*   ProcessCMD  = ProcessCMD():  environment first (a leading @ makes the WHOLE value a key file name), then      *)
-(*       argv[1..] with the Unprocessed[] mask; key files referenced from argv are processed on the spot.          *)
-(*   Call        = the callbacks, transcribed for a representative part of each option table.                      *)
-(*   ErrProc     = exit(): modelled by the field `exit`; once set nothing else happens.                            *)
-(* Named deviations of the code as it is (field `devs` of the scanner state; {} = repaired behaviour):             *)
-(*   QuietCounter    asl: -q counts 0..2 and +q counts down (-q -q +q stays quiet); manual: silent                 *)
-(*   DefFirstWins    asl: AddDefSymbol() ignores a second -D of a name (first definition wins); manual: silent     *)
-(*   IncRemoveWipes  asl: RemoveIncludeList() copies an uninitialised buffer over the list: +i <dir> empties the   *)
-(*                   whole include path instead of removing <dir>  (defect, proposed_fixes: C17-remove-include-path)  *)
-(*   EmptyNumberOK   p2bin -l / -e, p2hex -R / -e: ConstLongInt("") is a valid 0 and the callback answers CMDArg, so a  *)
-(*                   missing argument is accepted and the parameter behind the switch is dropped (p2bin src dst -l -s  *)
-(*                   writes no checksum, exit 0)  (defect, proposed_fixes: C17-tool-missing-number)                   *)
-(*   ToolFilesArgv   utilities take their file arguments from argv only (Unprocessed[]); file names in the         *)
-(*                   environment variable or in a key file land in FileArgList, which no utility reads             *)
-(*                                                                                                                *)
-(* DECLARATIVE SIDE (doc/assembler-usage.md "Start-Up Command, Parameters", doc/utility-programs.md)               *)
-(*   Flatten : the ordered word sequence the manual defines: environment first, then the command line, a key       *)
-(*             file referenced from the command line "as if written out in place of the reference"; the end of     *)
-(*             the environment value, of a key-file line ("switches and argument have to be written in the same     *)
-(*             line") and a key reference are BARRIERS for an option's argument.                                   *)
-(*   Parse   : the grammar: a word starting with - or + is a switch (whole word, any case, else every letter a     *)
-(*             switch of its own, only for switches without argument); the argument of a switch is the next         *)
-(*             plain word; optional arguments swallow a following plain word ("as -g test.asm ... of course          *)
-(*             fails"); plain words are file specifications; unknown switch / missing argument / bad value /         *)
-(*             key reference inside a key file = parameter error.                                                   *)
-(*   Meaning : the fold of the documented meaning over the occurrences in order: last one wins for scalars,        *)
-(*             accumulation / removal for the lists (-D, -i, -o, -f), counters for -x.                             *)
-(*   Spec(I) = Meaning(Parse(Flatten(I))) - independent of WHERE an occurrence stands except for order/barriers.   *)
-(* The program-level consequences (RunAsl: which files are assembled under which names with which target, symbol    *)
-(* values and include file; status 4 resp. 1 and nothing done after a parameter error) are one function applied     *)
-(* to either side's configuration.                                                                                 *)
+(* The command-line / option layer shared by the assembler and the utilities (cmdarg.c ProcessCMD and the                         *)
+(* CMD_* callbacks of as.c, p2bin.c, plist.c, toolutils.c), extension of check C17.                                               *)
+(*                                                                                                                                *)
+(* MACHINE SIDE (operators shaped like the C code)                                                                                *)
+(*   ParamSwitch / ParamInLine / ParamInArgv = ProcessParam():  classification of one word by its first                           *)
+(*       character, the `#` / `~` case prefixes, whole-word match (upper-cased, identifiers longer than one                       *)
+(*       letter) before the letter-by-letter loop (case sensitive, CMDArg sticky, stops at the first CMDErr),                     *)
+(*       the look-ahead word handed to every callback (blanked when it starts with - + @).                                        *)
+(*   DecodeLine  = DecodeLine():  one line of the environment variable / of a key file; CMDArg skips the next                     *)
+(*       token, plain tokens go to FileArgList, a key reference is refused (AllowLink = False).                                   *)
+(*   ProcessFile = ProcessFile(): every line of a key file through DecodeLine; missing file = ErrProc.                            *)
+(*   ProcessCMD  = ProcessCMD():  environment first (a leading @ makes the WHOLE value a key file name), then                     *)
+(*       argv[1..] with the Unprocessed[] mask; key files referenced from argv are processed on the spot.                         *)
+(*   Call        = the callbacks, transcribed for a representative part of each option table.                                     *)
+(*   ErrProc     = exit(): modelled by the field `exit`; once set nothing else happens.                                           *)
+(* Named deviations of the code as it is (field `devs` of the scanner state; {} = repaired behaviour):                            *)
+(*   QuietCounter    asl: -q counts 0..2 and +q counts down (-q -q +q stays quiet); manual: silent                                *)
+(*   DefFirstWins    asl: AddDefSymbol() ignores a second -D of a name (first definition wins); manual: silent                    *)
+(*   IncRemoveWipes  asl: RemoveIncludeList() copies an uninitialised buffer over the list: +i <dir> empties the                  *)
+(*                   whole include path instead of removing <dir>  (defect, proposed_fixes: C17-remove-include-path)              *)
+(*   EmptyNumberOK   p2bin -l / -e, p2hex -R / -e: ConstLongInt("") is a valid 0 and the callback answers CMDArg, so a            *)
+(*                   missing argument is accepted and the parameter behind the switch is dropped (p2bin src dst -l -s             *)
+(*                   writes no checksum, exit 0)  (defect, proposed_fixes: C17-tool-missing-number)                               *)
+(*   MaskOverflow    ProcessCMD writes Unprocessed[0..argc-1] into an array of MAXPARAM + 1 = 257 entries without a bound:        *)
+(*                   more than 256 parameters (a shell-expanded wildcard) overwrite what lies behind it - undefined               *)
+(*                   behaviour, p2bin with 1500 parameters dies with SIGSEGV (proposed_fixes: C17-too-many-parameters)            *)
+(*   BlankBeforeTab  DecodeLine splits a line at its first BLANK and only if there is none at its first TAB: in a line            *)
+(*                   with both, words separated by a tab stay glued together (`-q<TAB>-L -x` is the unknown switch                *)
+(*                   "-q<TAB>-L"); manual: silent about tabs                                                                      *)
+(*   ToolFilesArgv   utilities take their file arguments from argv only (Unprocessed[]); file names in the                        *)
+(*                   environment variable or in a key file land in FileArgList, which no utility reads                            *)
+(*                                                                                                                                *)
+(* DECLARATIVE SIDE (doc/assembler-usage.md "Start-Up Command, Parameters", doc/utility-programs.md)                              *)
+(*   Flatten : the ordered word sequence the manual defines: environment first, then the command line, a key                      *)
+(*             file referenced from the command line "as if written out in place of the reference"; the end of                    *)
+(*             the environment value, of a key-file line ("switches and argument have to be written in the same                   *)
+(*             line") and a key reference are BARRIERS for an option's argument.                                                  *)
+(*   Parse   : the grammar: a word starting with - or + is a switch (whole word, any case, else every letter a                    *)
+(*             switch of its own, only for switches without argument); the argument of a switch is the next                       *)
+(*             plain word; optional arguments swallow a following plain word ("as -g test.asm ... of course                       *)
+(*             fails"); plain words are file specifications; unknown switch / missing argument / bad value /                      *)
+(*             key reference inside a key file = parameter error.                                                                 *)
+(*   Meaning : the fold of the documented meaning over the occurrences in order: last one wins for scalars,                       *)
+(*             accumulation / removal for the lists (-D, -i, -o, -f), counters for -x.                                            *)
+(*   Spec(I) = Meaning(Parse(Flatten(I))) - independent of WHERE an occurrence stands except for order/barriers.                  *)
+(* The program-level consequences (RunAsl: which files are assembled under which names with which target, symbol                  *)
+(* values and include file; status 4 resp. 1 and nothing done after a parameter error) are one function applied                   *)
+(* to either side's configuration.                                                                                                *)
 EXTENDS Integers, Sequences, FiniteSets, SequencesExt, TLC
 
 LOCAL FL == INSTANCE FilterList             \* the -f list of the utilities (C05/C07): FAdd / FCancel
 
-AllDevs == {"QuietCounter", "DefFirstWins", "IncRemoveWipes", "ToolFilesArgv", "EmptyNumberOK"}      \* the code as pinned
+AllDevs == {"QuietCounter", "DefFirstWins", "IncRemoveWipes", "ToolFilesArgv", "EmptyNumberOK", "MaskOverflow", "BlankBeforeTab"}      \* the code as pinned
 
 \* ---- characters and words --------------------------------------------------------------------------------------
 LC == <<"a","b","c","d","e","f","g","h","i","j","k","l","m","n","o","p","q","r","s","t","u","v","w","x","y","z">>
@@ -221,7 +227,29 @@ DL(prog, ws, z, st) ==
             [] r.r = "Err"  -> [st EXCEPT !.cfg = r.cfg, !.exit = "env"]
             [] r.r = "Arg"  -> DL(prog, ws, z + 2, [st EXCEPT !.cfg = r.cfg])
             [] OTHER        -> DL(prog, ws, z + 1, [st EXCEPT !.cfg = r.cfg])
-DecodeLine(prog, ws, st) == IF ws = <<>> \/ ws[1].lead = ";" THEN st ELSE DL(prog, ws, 1, st)
+\* the text of a line: its words, separated by blanks unless the marker TabSep stands between two of them.
+\* DecodeLine: p = strchr(start, ' '); if (!p) p = strchr(start, '\t');  - the first BLANK of the rest of the line ends the
+\* token, a TAB only when no blank follows anywhere; the blanks and tabs behind the split are skipped
+TabSep == [lead |-> "\t", pfx |-> "", body |-> <<>>]
+IsTabSep(w) == w.lead = "\t"
+WordsOf(ws) == SelectSeq(ws, LAMBDA w : ~IsTabSep(w))
+RECURSIVE Pairs(_, _)
+Pairs(ws, i) == IF i > Len(ws) THEN <<>>
+                ELSE IF IsTabSep(ws[i]) THEN Pairs(ws, i + 1)
+                ELSE <<[w |-> ws[i], sep |-> IF i + 1 <= Len(ws) /\ IsTabSep(ws[i + 1]) THEN "\t"
+                                             ELSE IF i + 1 <= Len(ws) THEN " " ELSE ""]>> \o Pairs(ws, i + 1)
+Glue(ps, a, b) == IF a = b THEN ps[a].w            \* several words and the tabs between them taken for one token
+                  ELSE [ps[a].w EXCEPT !.body = IF ps[a].w.lead = "" THEN <<AtomOf(ps[a].w) \o "<TAB>...">> ELSE @ \o <<"\t", "...">>]
+RECURSIVE Tok(_, _)
+Tok(ps, s) == IF s > Len(ps) THEN <<>>
+              ELSE LET sp == {j \in s..Len(ps) : ps[j].sep = " "}
+                       tb == {j \in s..Len(ps) : ps[j].sep = "\t"}
+                       j  == IF sp # {} THEN Min(sp) ELSE IF tb # {} THEN Min(tb) ELSE Len(ps)
+                   IN <<Glue(ps, s, j)>> \o Tok(ps, j + 1)
+Tokens(ws, devs) == IF \A i \in 1..Len(ws) : ~IsTabSep(ws[i]) THEN ws
+                    ELSE IF "BlankBeforeTab" \in devs THEN Tok(Pairs(ws, 1), 1) ELSE WordsOf(ws)
+DecodeLine(prog, ws, st) == LET ts == Tokens(ws, st.cfg.devs)
+                            IN IF ts = <<>> \/ ts[1].lead = ";" THEN st ELSE DL(prog, ts, 1, st)
 
 \* keys: key file name -> sequence of lines (a line = sequence of words)
 RECURSIVE PF(_, _, _, _)
@@ -249,7 +277,11 @@ AV(prog, keys, argv, z, st) ==
                  [] OTHER        -> AV(prog, keys, argv, z + 1, [r.st EXCEPT !.files = Append(@, AtomOf(argv[z]))])
 
 \* an input: env = words of the environment variable (<<>> = unset), keys, argv = argv[1..]
+MAXPARAM == 256                      \* typedef Boolean CMDProcessed[MAXPARAM + 1], indexed by argv position
 ProcessCMD(prog, I, devs) ==
+  IF Len(I.argv) > MAXPARAM              \* for (z = 0; z < argc; z++) Unprocessed[z] = ... : no bound in the code as pinned
+  THEN [cfg |-> InitCfg(prog, devs), files |-> <<>>, exit |-> IF "MaskOverflow" \in devs THEN "overflow" ELSE "arg", unproc |-> <<>>]
+  ELSE
   LET st0 == [cfg |-> InitCfg(prog, devs), files |-> <<>>, exit |-> "none", unproc |-> [z \in 1..Len(I.argv) |-> TRUE]]
       st1 == IF I.env # <<>> /\ I.env[1].lead = "@"                       \* if (EnvLine[0] == '@') ProcessFile(EnvLine + 1)
              THEN ProcessFile(prog, I.keys, IF Len(I.env) = 1 THEN AtomOf(I.env[1]) ELSE "<rest of the line>", st0)
@@ -261,7 +293,8 @@ Unprocessed(I, st) == [k \in 1..Cardinality({z \in 1..Len(I.argv) : st.unproc[z]
                          AtomOf(I.argv[CHOOSE z \in 1..Len(I.argv) : st.unproc[z] /\ Cardinality({y \in 1..z : st.unproc[y]}) = k])]
 Scan(prog, I, devs) ==
   LET st == ProcessCMD(prog, I, devs)
-  IN IF st.exit # "none" THEN [err |-> TRUE]
+  IN IF st.exit = "overflow" THEN [err |-> TRUE, undef |-> TRUE]         \* memory behind the mask overwritten: anything may follow
+     ELSE IF st.exit # "none" THEN [err |-> TRUE]
      ELSE [err |-> FALSE,                                \* QuietMode is only ever tested for zero / non-zero
            cfg |-> [f \in DOMAIN st.cfg \ {"devs"} |-> IF f = "quiet" THEN (IF st.cfg[f] > 0 THEN 1 ELSE 0) ELSE st.cfg[f]],
            files |-> IF prog = "asl" \/ "ToolFilesArgv" \notin devs THEN st.files ELSE Unprocessed(I, st)]
@@ -275,7 +308,7 @@ BADKEY == [lead |-> "!", pfx |-> "", body |-> <<>>]         \* reference to a ke
 Flat(seqs) == FoldLeft(LAMBDA a, b : a \o b, <<>>, seqs)
 KeyWords(keys, k) == IF k \notin DOMAIN keys THEN <<BADKEY>>
                      ELSE Flat([i \in 1..Len(keys[k]) |-> IF keys[k][i] # <<>> /\ keys[k][i][1].lead = ";" THEN <<>>
-                                                             ELSE keys[k][i] \o <<BAR>>])
+                                                             ELSE WordsOf(keys[k][i]) \o <<BAR>>])
 Flatten(I) ==
   LET e == IF I.env # <<>> /\ I.env[1].lead = "@"
            THEN (IF Len(I.env) = 1 THEN KeyWords(I.keys, AtomOf(I.env[1])) ELSE <<BADKEY>>)
@@ -393,7 +426,8 @@ Meaning(prog, items) ==
                    IN [f \in DOMAIN full \ {"devs"} |-> full[f]],
            files |-> LET fs == SelectSeq(items, LAMBDA it : it.k = "file") IN [j \in 1..Len(fs) |-> fs[j].f]]
 
-Items(prog, I) == Parse(prog, Flatten(I), 1)
+\* the manual names no limit for the number of parameters; beyond the implementation's 256 nothing is promised
+Items(prog, I) == IF Len(I.argv) > MAXPARAM THEN <<[k |-> "unspec"]>> ELSE Parse(prog, Flatten(I), 1)
 Spec(prog, I)  == Meaning(prog, Items(prog, I))
 Specified(prog, I) == ~Open(prog, Items(prog, I))
 
@@ -414,8 +448,10 @@ Outputs(c, files, out) ==
   ELSE <<[src |-> Head(files), missing |-> FALSE, name |-> IF out = <<>> THEN "<default>" ELSE Head(out),
           cpu |-> IF c.cpu = "" THEN "68008" ELSE c.cpu, A |-> Lookup(c, "A"), a |-> Lookup(c, "a"), B |-> Lookup(c, "B"),
           inc |-> IncWinner(c)]>> \o Outputs(c, Tail(files), IF out = <<>> THEN <<>> ELSE Tail(out))
+Undefined == 99                     \* status marker: undefined behaviour, nothing is predicted
 RunAsl(r) ==
-  IF r.err THEN [status |-> 4, outs |-> <<>>]
+  IF "undef" \in DOMAIN r THEN [status |-> Undefined]
+  ELSE IF r.err THEN [status |-> 4, outs |-> <<>>]
   ELSE LET outs == Outputs(r.cfg, r.files, r.cfg.out)
            fatal == \E i \in 1..Len(outs) : outs[i].missing
            done  == SelectSeq(outs, LAMBDA o : ~o.missing)
@@ -425,8 +461,16 @@ RunAsl(r) ==
            incboth |-> {"p1", "p2"} \subseteq Range(r.cfg.inc)]
 \* utilities: exit(1) from ParamError; p2bin: the last file argument is the target, the others are sources
 RunTool(prog, r) ==
-  IF r.err THEN [status |-> 1]
+  IF "undef" \in DOMAIN r THEN [status |-> Undefined]
+  ELSE IF r.err THEN [status |-> 1]
   ELSE [status |-> 0, cfg |-> r.cfg, files |-> r.files]           \* 0 = no parameter error; what follows is the tool's work
 
 Run(prog, r) == IF prog = "asl" THEN RunAsl(r) ELSE RunTool(prog, r)
+
+\* main(): if (argc <= 1) the help text and exit(1), before ProcessCMD - the environment variable is not even read
+\* (manual: "1  The assembler displayed only its command-line parameters and terminated immediately afterwards";
+\* utilities: 1 = error in command line parameters).  plist asks for the file name instead (not modelled).
+NoParams(prog) == IF prog = "asl" THEN [status |-> 1, outs |-> <<>>, banner |-> TRUE] ELSE [status |-> 1]
+Outcome(prog, I, devs) == IF I.argv = <<>> /\ prog # "plist" THEN NoParams(prog) ELSE Run(prog, Scan(prog, I, devs))
+DocOutcome(prog, I)    == IF I.argv = <<>> /\ prog # "plist" THEN NoParams(prog) ELSE Run(prog, Spec(prog, I))
 =============================================================================
